@@ -180,4 +180,28 @@ example : (parseCC [(sCacheControl, str% "MAX-AGE=\"100\"")]).maxAge = some 1000
 example : (parseCC [(sCacheControl, str% "max-age=9223372037")]).maxAge = some 9223372036000000000 := by decide
 example : (parseCC [(sCacheControl, str% "no-cache, no-cache=\"x\"")]).noCacheUnqualified = true := by decide
 
+/-- A backslash OUTSIDE a quoted-string escapes nothing (a quoted-pair exists only inside one, RFC 9110 §5.6.4):
+    the comma after it separates list elements, so a malformed element cannot hide the directive that follows.
+    An element with backslashes but no quote is a closed element, and `quoted_elements` applies to lists that contain it.
+    (The pinned tokenizer took `\,` for an escaped comma anywhere: `ext=a\, no-store` was ONE element and the
+    response was stored; likewise it hid max-age, no-cache, must-revalidate and a request's no-cache.) -/
+theorem backslash_outside_quotes_is_no_escape (e : Str) (h : e.all (fun c => c ≠ ',' && c ≠ '"') = true) :
+    closedElem e = true := by
+  unfold closedElem
+  have : ∀ (e : Str), e.all (fun c => c ≠ ',' && c ≠ '"') = true → qscanAll (false, false) e = some (false, false) := by
+    intro e
+    induction e with
+    | nil => intro _; rfl
+    | cons c cs ih =>
+      intro h
+      simp only [List.all_cons, Bool.and_eq_true, decide_eq_true_eq, ne_eq] at h
+      have hq : qscan (false, false) c = some (false, false) := by
+        unfold qscan
+        simp [h.1.1, h.1.2]
+      simp only [qscanAll, hq]
+      exact ih (by simpa using h.2)
+  simpa using this e h
+
+example : trimmedCSV (str% "max-age=3600, ext=a\\, no-store") = [str% "max-age=3600", str% "ext=a\\", str% "no-store"] := by decide
+
 end Httpcache.C12
